@@ -168,6 +168,11 @@ func (s *Scanner) scanEscape(quote rune) bool {
 		s.advance()
 		return true
 	default:
+		// the range covers the backslash and the escaped character, if there is one on this line
+		endColumn := s.column + 2
+		if next := s.peekNext(); next == eof || next == '\n' {
+			endColumn = s.column + 1
+		}
 		s.err(
 			ddperror.SYN_MALFORMED_LITERAL,
 			token.Range{
@@ -177,7 +182,7 @@ func (s *Scanner) scanEscape(quote rune) bool {
 				},
 				End: token.Position{
 					Line:   s.line,
-					Column: s.column + 2,
+					Column: endColumn,
 				},
 			},
 			fmt.Sprintf("Unbekannte Escape Sequenz '\\%v'", s.peekNext()),
